@@ -106,6 +106,22 @@ def are_joinable(
         if any_out_edges and block2.size != 0:
             return JoinableResult(False, "block1 has outgoing edges")
 
+        # If block1 ends in a terminator that does not fall through to block2
+        # (e.g. an unconditional jump or return), block2's outgoing edges
+        # cannot be given to block1.
+        falls_through = any(
+            _is_fallthrough_edge(edge) and edge.target == block2
+            for edge in block1.outgoing_edges
+        )
+        if (
+            any_out_edges
+            and not falls_through
+            and any(block2.outgoing_edges)
+        ):
+            return JoinableResult(
+                False, "block1 does not fall through to block2"
+            )
+
         any_in_edges = any(
             edge
             for edge in block2.incoming_edges
